@@ -173,6 +173,7 @@ def RState.zero : RState := ⟨0, 0, Manifest.zero, Ident.zero⟩
 inductive Err where
   | invalid | notready | stale | fenced | conflict | backpressure | unavailable
   | recoveryUnavailable | probeIncomplete | linkDown | peerUnknown | toomany | other
+  | norepair | repairFailed
 deriving DecidableEq, Repr, Inhabited
 
 def Err.str : Err → String
@@ -180,6 +181,7 @@ def Err.str : Err → String
   | .conflict => "conflict" | .backpressure => "backpressure" | .unavailable => "unavailable"
   | .recoveryUnavailable => "recovery-unavailable" | .probeIncomplete => "probe-incomplete"
   | .linkDown => "link-down" | .peerUnknown => "peer-unknown" | .toomany => "toomany" | .other => "other"
+  | .norepair => "norepair" | .repairFailed => "repair-failed"
 
 /-- `loadExactStateLocked` + `validateExactState` -/
 def Store.load (s : Store) : Except Err RState :=
@@ -955,6 +957,44 @@ def commit (s : Sys) (i : Nat) (expected : AuthId) (c : Nat) (cs : List Nat) (ac
       if ch.auth.fenced then (s, .err .fenced) else
       commitAdmitted s i nd ch (Cmd.biz c) cs acks
 
+/-! ## follower gap repair (runtimeRepairOwner.repair / repairFromFrontier) -/
+
+/-- replicate the leader's proposals one by one; stop at the first answer that is not durable.
+    `committed` is the LEADER's committed watermark: each proposal carries
+    min(leader committed, proposal last) -/
+def repairProps (s : Sys) (f committed : Nat) : List PRec → Sys × Bool
+  | [] => (s, true)
+  | p :: ps =>
+    if !s.isUp f then (s, false) else
+    let (st, out) := (s.storeOf f).sync p.m p.contents (min committed p.m.last)
+    let s := s.setStore f st
+    if out.isDurable then repairProps s f committed ps else (s, false)
+
+/-- `repair(l → f, needFrom)`: load the leader frontier (with the identity before needFrom),
+    fetch the leader's proposals [needFrom, LEO] and replicate them to the follower -/
+def repairFollower (s : Sys) (l f nf : Nat) : Sys × Res :=
+  if l = f then (s, .err .norepair) else
+  match (s.storeOf l).load with
+  | .error _ => (s, .err .norepair)
+  | .ok state =>
+    if nf = 0 ∨ state.manifest.last < nf ∨ state.leo < nf ∨ state.manifest.a.epoch = 0 ∨
+       state.manifest.a.term = 0 ∨ state.manifest.a.fence = 0 then (s, .err .norepair) else
+    let prevE : Option Ident :=
+      if nf > 1 then
+        match (s.storeOf l).probe (nf - 1) with
+        | .ok (some id) => some id
+        | _ => none
+      else some Ident.zero
+    match prevE with
+    | none => (s, .err .repairFailed)
+    | some previous =>
+      match (s.storeOf l).fetch state nf state.manifest.last previous with
+      | .error _ => (s, .err .repairFailed)
+      | .ok props =>
+        match repairProps s f state.committed props with
+        | (s', true) => (s', .ok)
+        | (s', false) => (s', .err .repairFailed)
+
 /-! ## operations -/
 
 inductive Op where
@@ -963,6 +1003,7 @@ inductive Op where
   | commit (node : Nat) (expected : AuthId) (c : Nat) (k p : Nat) (acks : List Ack)
   | crash (node : Nat)
   | restart (node : Nat)
+  | repair (leader follower needFrom : Nat)
 deriving Repr, Inhabited
 
 /-- record `j` of command variant `p` has abstract content `p*8+j` -/
@@ -987,6 +1028,11 @@ def step (s : Sys) : Op → Sys × Res
     match s.node? i with
     | none => (s, .bad)
     | some nd => if nd.up then (s, .already) else (s.setNode i { nd with up := true, chan := none }, .ok)
+  | .repair l f nf =>
+    let s := { s with started := true }
+    match s.node? l, s.node? f with
+    | some nd, some _ => if !nd.up then (s, .notup) else repairFollower s l f nf
+    | _, _ => (s, .bad)
   | .install i a ps acks =>
     let s := { s with started := true }
     match s.node? i with
